@@ -50,6 +50,26 @@ class FlowGraph:
             raise TranslateError(f"degenerate graph: {len(self.sources)} sources, {len(self.sinks)} sinks, "
                                  f"{len(self.sanitisers)} sanitisers")
         self.consts = log_constants(an.ix)
+        # in-Lean meaning of the node numbers: sources per secret role, sinks per kind
+        def named(i, var):
+            n = self.names[i]
+            return n == f"a:{var}" or (n.startswith("v:") and n.endswith(":" + var))
+        self.role_sources = {
+            "PW": [i for i in self.sources if named(i, "auth_password")],
+            "PP": [i for i in self.sources if named(i, "auth_private_key_passphrase")],
+            "SEC": [i for i in self.sources if named(i, "auth_secondary")],
+            "HID": [i for i in self.sources if self.names[i].endswith(f":{EVENTS}[*][0]")],
+        }
+        covered = sorted(x for v in self.role_sources.values() for x in v)
+        if covered != sorted(self.sources) or any(not v for v in self.role_sources.values()):
+            raise TranslateError("sources are not exactly the union of the four secret roles / a role has no source")
+        self.kind_sinks = {k: [i for i in self.sinks if self.sites[i]["kind"] == k] for k in ("log", "raise", "repr")}
+        if sorted(x for v in self.kind_sinks.values() for x in v) != sorted(self.sinks) or any(not v for v in self.kind_sinks.values()):
+            raise TranslateError("sinks are not exactly log + raise + repr sinks / a kind has no sink")
+        labels = {self.names[i].rsplit(":", 1)[1] for i in self.kind_sinks["repr"]}
+        if not {"BaseDriver.__repr__", "BaseDriver.__str__"} <= labels:
+            raise TranslateError(f"BaseDriver.__repr__/__str__ are not both gating sinks (repr sinks: {sorted(labels)})")
+        self.decisions = reviewed_decisions(an)
 
     # ---- python-side reachability (independent of the Lean one; used for reporting paths and cross-check)
     def reach(self, starts, avoid_sanitisers=True):
@@ -152,6 +172,32 @@ def log_constants(ix):
     return out
 
 
+# ---------------------------------------------------------------- places where the extraction DROPS taint by assumption
+EXPECTED = __file__.rsplit("/", 1)[0] + "/c12_expected.json"
+
+
+def reviewed_decisions(an):
+    """attributes treated as opaque handles, exception handlers treated as receiving library-authored text, log
+    calls whose receiver is not called *logger*: each is a reviewed decision, listed in gen/c12_expected.json; a change
+    of the set is a TranslateError until the file is updated by hand"""
+    import json, os
+    attrs = set(an.ix.attr_tags) | set(an.ix.attr_ann)
+    cur = {"handle_attributes": sorted(a for a in attrs if an.ix.is_handle_attr(a)),
+           "narrow_exception_handlers": sorted(an.narrow_handlers),
+           "log_sinks_with_unnamed_receiver": sorted(x.rsplit(":", 1)[0] for x in an.unnamed_log_sinks)}
+    if os.environ.get("C12_WRITE_EXPECTED"):
+        json.dump(cur, open(EXPECTED, "w"), indent=1)
+    try:
+        exp = json.load(open(EXPECTED))
+    except OSError:
+        raise TranslateError("gen/c12_expected.json missing (run once with C12_WRITE_EXPECTED=1 and review it)")
+    for k in ("handle_attributes", "narrow_exception_handlers"):
+        new = sorted(set(cur[k]) - set(exp.get(k, [])))
+        if new:
+            raise TranslateError(f"new taint-dropping assumption ({k}): {new[:5]} - review it and add it to gen/c12_expected.json")
+    return cur
+
+
 # ---------------------------------------------------------------- Lean emission
 def lean_str(s):
     out = ['"']
@@ -205,6 +251,10 @@ def generate():
     body.append(f"def sinks : List Nat := {_natlist(g.sinks)}\n")
     body.append(f"def sanitisers : List Nat := {_natlist(g.sanitisers)}\n")
     body.append(f"def advisorySinks : List Nat := {_natlist(g.advisory)}\n")
+    for r, ids in g.role_sources.items():
+        body.append(f"def sources{r} : List Nat := {_natlist(ids)}\n")
+    for k, ids in g.kind_sinks.items():
+        body.append(f"def sinks{k.capitalize()} : List Nat := {_natlist(ids)}\n")
     body.append("def graph : Graph := { adj := adj, sources := sources, sinks := sinks, sanitisers := sanitisers }\n")
     body.append("/-- the same graph with the non-driver repr/str (Response, SSHConfig, …) as sinks: advisory -/\n")
     body.append("def advisoryGraph : Graph := { graph with sinks := advisorySinks }\n")
